@@ -79,3 +79,10 @@ K("cd2.lz77_distance_mult0", ["C01", "C04"], "jxl-coding", CD, CDM, "lz77_distan
   timeout=300, attrs=_log2_attrs, kani_args=_NRC)
 K("cd2.lz77_distance_special", ["C01", "C04"], "jxl-coding", CD, CDM, "lz77_distance_clamp_special", _lzk + "every dist_multiplier in 1..=306783377", _lzf, _lzc,
   timeout=300, attrs=_log2_attrs, kani_args=_NRC)
+
+# (orchestrator) the two LZ77 clamp rows use CBMC's array theory for the 2^20-entry window; their solver time varies between 10 s and
+# more than 300 s from run to run, so they are thorough-only with a generous timeout
+for _o in OBLIGATIONS:
+    if _o["id"] in ("cd2.lz77_distance_mult0", "cd2.lz77_distance_special"):
+        _o["tier"] = "thorough"
+        _o["timeout"] = 1200
